@@ -225,7 +225,7 @@ pub fn record_format(seed: u64, thorough: bool, path: &str) -> Value {
         let mut raw = RawVector::with_len(rng.range(65, 200), true);
         for _ in 0..rng.range(1, 3) { unsafe { raw.pop_int(rng.range(1, 64)); } }
         if rep % 3 == 0 { raw = raw.complement(); raw.push_bit(true); unsafe { raw.pop_int(1); } }
-        if rep % 3 == 1 { let l = raw.len(); raw.resize(l - rng.range(1, 60), false); }
+        if rep % 3 == 1 { let l = raw.len(); raw.resize(l - rng.range(1, 60).min(l), false); }
         let ones: Vec<usize> = (0..raw.len()).filter(|i| raw.bit(*i)).collect();
         out.push(ev("raw", &(raw), json!({"len": raw.len(), "ones": ones})));
         files += 2;
